@@ -47,7 +47,7 @@ G = 9.80665
 
 def cases(tier, seed):
     out = []
-    n = 48 if tier == 'quick' else 1500
+    n = 96 if tier == 'quick' else 1500
     for i in range(n):
         out.append({'name': 'steps-%d' % i, 'kind': 'steps',
                     'seed': [seed, 141, i]})
@@ -74,7 +74,10 @@ def add_grids(rng, P, tname, dyadic):
     tries = 0
     while len(zs) < n and tries < 50:
         tries += 1
-        if dyadic:
+        if dyadic == 'cm':
+            # whole centimetres: planes of the default 1 cm step
+            z = float(rng.integers(1, int(round(P['length'] / 0.01)))) * 0.01
+        elif dyadic:
             z = float(rng.integers(1, 128)) / 128.0 * P['length']
         else:
             z = float(np.round(rng.uniform(lo, hi), 4))
@@ -421,7 +424,8 @@ def run_steps(case, res):
         P['setup']['include_gravity_head_loss'] = True
     grids = []
     if not P['types']['a'].get('use_low_fidelity_model'):
-        grids = add_grids(rng, P, 'a', dyadic)
+        grids = add_grids(rng, P, 'a', dyadic if dyadic or rng.random() < 0.5
+                          else 'cm')
     thin = None
     if rng.random() < 0.2:
         # a top region that gets the last axial step only
